@@ -37,7 +37,7 @@ def encOptNat' : Option Nat → String | none => "-" | some n => toString n
 
 def parseExec (s : String) : Option Exec :=
   match s.splitOn ":" with
-  | ["P", e, st] => e.toNat?.map fun e => .progErr e st ""
+  | ["P", e, st] => e.toInt?.map fun e => .progErr e st ""
   | ["X"] => some .otherExc
   | ["K", d, n, rc] => match n.toNat?, rc.toNat? with
     | some n, some rc => some (.ok (d == "1") n rc) | _, _ => none
